@@ -142,12 +142,15 @@ def rule_estate(repo, res, families=("PVLParser", "PVLDecoder", "PVLEncoder"), f
                     n_attrs += 1
                     # which entry definitions (the resolved one and those it reaches through super()) reset it first?
                     reset = False
+                    assigned_first = False      # some top-level assignment (fresh or not) before anything calls into the class
                     chain = [c for c in repo.mro(cname) if not c.startswith("ext:") and entry in repo.classes[c].methods]
                     for c in chain:
                         fn = repo.classes[c].methods[entry]
                         for s in fn.body:
                             if isinstance(s, ast.Expr) and isinstance(s.value, ast.Constant):
                                 continue
+                            if isinstance(s, ast.Assign) and any(self_attr(t) == a for t in s.targets):
+                                assigned_first = True
                             if isinstance(s, ast.Assign) and any(self_attr(t) == a for t in s.targets) and is_fresh(s.value):
                                 reset = True
                                 break
@@ -159,7 +162,10 @@ def rule_estate(repo, res, families=("PVLParser", "PVLDecoder", "PVLEncoder"), f
                                 break
                         if reset:
                             break
-                    only_assign_in_entry = all(m == entry and kind == "assign" for (_, m, kind, _) in sites)
+                    # an attribute that only the entry point assigns is per-call state as long as the entry point assigns it
+                    # unconditionally before it calls anything (self.doc = s); assigned on some paths only, it keeps the
+                    # value of an earlier call on the others
+                    only_assign_in_entry = all(m == entry and kind == "assign" for (_, m, kind, _) in sites) and assigned_first
                     ok = reset or only_assign_in_entry
                     c0, m0, kind0, node0 = sites[0]
                     for (c1, m1, k1, n1) in sites:
